@@ -63,7 +63,11 @@ def draw(desc: dict, mode: str, modes: list[str], n: int, seed: int) -> dict:
         gm = {"positive": GenerationMode.POSITIVE, "negative": GenerationMode.NEGATIVE}
         config = GenerationConfig(modes=[gm[m] for m in modes], allow_x00=bool(cfg["allow_x00"]), codec=cfg["codec"],
                                   with_security_parameters=bool(cfg.get("security")))
-        strategy = operation.as_strategy(generation_mode=gm[mode], generation_config=config)
+        kwargs: dict = {}
+        if cfg.get("explicit"):     # the caller fixes q1 (a conforming value); the rest of the location must be generated around it
+            q1 = next(p for p in op_decl["params"] if p["loc"] == "query" and uncps(p["name"]) == "q1")
+            kwargs["query"] = {"q1": 2 if q1["schema"].get("type") == ["integer"] else "ab"}
+        strategy = operation.as_strategy(generation_mode=gm[mode], generation_config=config, **kwargs)
     except Exception as exc:
         out["outcome"], out["error"] = "error", "setup:%s:%s" % (type(exc).__name__, str(exc)[:160])
         return out
